@@ -14,33 +14,35 @@
 (* no record are silent steps.                                             *)
 (***************************************************************************)
 EXTENDS Reader, TraceLib
-VARIABLES started
-tvars == <<rvars, l, started>>
+VARIABLES started, finals
+tvars == <<rvars, l, started, finals>>
 NoSc == [recs |-> <<>>, fastq |-> FALSE, wrap |-> 0, cut |-> 0]
-TInit == TrackInit /\ l = 1 /\ started = FALSE /\ RInitSc(NoSc)
+TInit == TrackInit /\ l = 1 /\ started = FALSE /\ finals = {} /\ RInitSc(NoSc)
+\* a run is complete when the iterator's end and the statistics pass have both been seen
+RunComplete == ~started \/ (mode = "done" /\ finals = {"reof", "rstats"})
 ScOf(e) == [recs |-> [i \in 1..Len(e.recs) |-> [id |-> e.recs[i].id, desc |-> e.recs[i].desc, seq |-> e.recs[i].seq]],
             fastq |-> (e.fastq = 1), wrap |-> e.wrap, cut |-> e.cut]
-TOpen == /\ Is("ropen") /\ (~started \/ mode = "done")
+TOpen == /\ Is("ropen") /\ RunComplete
          /\ (\E s \in {ScOf(Ev)} : RReset(s))
-         /\ started' = TRUE /\ Consume
-TLine == started /\ Line /\ emitted' = emitted /\ mode' # "error" /\ UNCHANGED <<l, started>>
+         /\ started' = TRUE /\ finals' = {} /\ Consume
+TLine == started /\ Line /\ emitted' = emitted /\ mode' # "error" /\ UNCHANGED <<l, started, finals>>
 TRec == /\ Is("rrec") /\ started
         /\ (Line \/ Eof)
         /\ Len(emitted') = Len(emitted) + 1
         /\ emitted'[Len(emitted')] = [n |-> Ev.n, id |-> Ev.id, seq |-> Ev.seq]
-        /\ Consume /\ UNCHANGED started
+        /\ Consume /\ UNCHANGED <<started, finals>>
 TEofEv == /\ Is("reof") /\ started
           /\ \/ mode = "done" /\ UNCHANGED rvars
              \/ Eof /\ emitted' = emitted
-          /\ Consume /\ UNCHANGED started
+          /\ finals' = finals \cup {"reof"} /\ Consume /\ UNCHANGED started
 TStats == /\ Is("rstats") /\ started /\ mode = "done"
           /\ Ev.count = Len(sc.recs) /\ Ev.total = SumLen(sc.recs)
-          /\ Consume /\ UNCHANGED <<rvars, started>>
+          /\ finals' = finals \cup {"rstats"} /\ Consume /\ UNCHANGED <<rvars, started>>
 FormatOf(ext) == CASE ext \in {"fa", "fasta", "fna"} -> "fasta"
                    [] ext \in {"fq", "fastq"} -> "fastq"
                    [] OTHER -> "none"
-TFmt == Is("rfmt") /\ Ev.got = FormatOf(Ev.ext) /\ Consume /\ UNCHANGED <<rvars, started>>
-TEof == Is("eof") /\ (~started \/ mode = "done") /\ Consume /\ UNCHANGED <<rvars, started>>
+TFmt == Is("rfmt") /\ Ev.got = FormatOf(Ev.ext) /\ Consume /\ UNCHANGED <<rvars, started, finals>>
+TEof == Is("eof") /\ RunComplete /\ Consume /\ UNCHANGED <<rvars, started, finals>>
 TNext == TOpen \/ TLine \/ TRec \/ TEofEv \/ TStats \/ TFmt \/ TEof
 TSpec == TInit /\ [][TNext]_tvars
 TraceInv == PrefixInv /\ RoundTrip /\ Stats
